@@ -67,6 +67,39 @@ def v_grid(vkind: str, vols, n: int = N_GRID):
     return g
 
 
+GRID_PRESENTATIONS = ("float64", "int64", "int32", "float32", "strided", "readonly")
+INT_GRID_UNIT = 4.0        # integer grids: the cell is expressed in a unit 4x finer, so that the integral volumes
+                           # between V_min/1.2 and V_max*1.2 are at least as dense as the 2001-point float grid
+
+
+def present_grid(pres, vkind, vols, n=N_GRID):
+    """The evaluation grid in one of several PRESENTATIONS of a one-dimensional numpy array.  Returns
+    (array handed to the code, float64 C-contiguous writable array of exactly the same values)."""
+    if pres in ("int64", "int32"):
+        lo, hi = min(vols), max(vols)
+        if vkind == "extended":
+            lo, hi = lo / RATIO, hi * RATIO
+        g = numpy.arange(math.ceil(lo), math.floor(hi) + 1, dtype=pres)
+        return g, g.astype(numpy.float64)
+    base = v_grid(vkind, vols, n)
+    if pres == "float64":
+        return base, base.copy()
+    if pres == "float32":
+        g = base.astype(numpy.float32)
+        g = g[numpy.concatenate(([True], numpy.diff(g) > 0))]          # float32 rounding must not create repeated volumes
+        return g, g.astype(numpy.float64)
+    if pres == "strided":
+        long = numpy.empty(2 * len(base))
+        long[::2] = base
+        long[1::2] = -1.0                                              # what a wrong stride would pick up
+        return long[::2], base.copy()
+    if pres == "readonly":
+        g = base.copy()
+        g.setflags(write=False)
+        return g, base.copy()
+    raise ValueError(pres)
+
+
 # --------------------------------------------------------------------------- laws
 
 def make_law(kind: str, degree: int, idx: int) -> dict:
@@ -123,14 +156,34 @@ def triple(law, v, v0):
 
 
 def omega_at(law, v, v0):
+    if law["g0"] == 0.0 and not any(law.get("b", [])) and not law.get("A"):
+        return law["w0"]                       # a flat law is written as the number itself (bit-identical columns)
     f, _, _ = _lnw_terms(law, math.log(v / v0), math.exp)
     return math.exp(f)
 
 
-def laws_for(kind, degree, nq, npm, wscale=1.0, offset=0):
+DUP_KINDS = ("none", "within", "across", "after-acoustic")
+
+
+def flat_law(kind, degree, w):
+    """omega = w at every volume (gamma = V dgamma/dV = 0), spelled in the family `kind`."""
+    law = {"kind": kind, "w0": float(w), "g0": 0.0}
+    if kind == "poly":
+        law["b"] = [0.0] * max(degree - 1, 0)
+    elif kind == "morse":
+        law["A"], law["a"] = 0.0, 1.0
+    return law
+
+
+def laws_for(kind, degree, nq, npm, wscale=1.0, offset=0, dup="none", acoustic="mixed"):
     """laws[q][m]; the three Gamma acoustic slots are None.  wscale multiplies every frequency
     (gamma and V dgamma/dV do not change); offset shifts the slot index -> a different law set of the
-    same shape (offset = 1 moves every law one slot along, a multiple of 5 keeps the softening pattern)."""
+    same shape (offset = 1 moves every law one slot along, a multiple of 5 keeps the softening pattern).
+    dup makes CONSECUTIVE (q,m) slots hold identical frequency columns:
+      within          degenerate branches: inside every q-point each second non-acoustic branch repeats the one before
+      across          the first branch of q-point j repeats the last branch of q-point j-1 (j >= 1, where j-1 has one)
+      after-acoustic  the first interpolated slot (q=0,m=3, or q=1,m=0 when n_p = 3) repeats the column of the last
+                      Gamma acoustic slot (a flat tiny residual frequency)"""
     out = []
     for q in range(nq):
         row = []
@@ -142,7 +195,37 @@ def laws_for(kind, degree, nq, npm, wscale=1.0, offset=0):
             law["w0"] = law["w0"] * wscale
             row.append(law)
         out.append(row)
+    if dup == "within":
+        for row in out:
+            ms = [m for m, l in enumerate(row) if l is not None]
+            for i in range(1, len(ms), 2):
+                row[ms[i]] = dict(row[ms[i - 1]])
+    elif dup == "across":
+        for q in range(1, nq):
+            prev = [l for l in out[q - 1] if l is not None]
+            if prev and out[q]:
+                out[q][0] = dict(prev[-1])
+    elif dup == "after-acoustic":
+        w = ACOUSTIC_VARIANTS[acoustic][2]
+        if not w > 0:
+            raise ValueError("after-acoustic needs a positive residual in the last acoustic slot")
+        if npm > 3:
+            out[0][3] = flat_law(kind, degree, w)
+        elif nq > 1:
+            out[1][0] = flat_law(kind, degree, w)
+    elif dup != "none":
+        raise ValueError(dup)
     return out
+
+
+def consecutive_identical(inp):
+    """Number of consecutive (q,m) slot pairs (row-major, Gamma acoustic slots included) whose frequency
+    columns are identical at every sampled volume -- what `dup` is supposed to produce."""
+    cols = []
+    for q in range(inp.nq):
+        for m in range(inp.np):
+            cols.append(tuple(v.q_points[q].modes[m] for v in inp.volumes))
+    return sum(1 for a, b in zip(cols, cols[1:]) if a == b)
 
 
 def crossings(laws, vols, v0):
@@ -183,13 +266,14 @@ def weights_for(kind, nq):
     return [0.0 if q in zero else w for q, w in enumerate(inc)]
 
 
-def build_input(nv, nq, npm, kind, degree=0, wscale=1.0, vscale=1.0, acoustic="mixed", offset=0, weights="unit"):
+def build_input(nv, nq, npm, kind, degree=0, wscale=1.0, vscale=1.0, acoustic="mixed", offset=0, weights="unit",
+                dup="none"):
     """Plain objects with the attribute names the implementation reads:
     nv, nq, np, (nm, na, weights,) volumes[i].volume, volumes[i].q_points[j].modes[k]
     (plus pressure/energy/coord so that the real NamedTuples can be filled from it)."""
     vols = volumes(nv, vscale)
     v0 = v_ref(vols)
-    laws = laws_for(kind, degree, nq, npm, wscale, offset)
+    laws = laws_for(kind, degree, nq, npm, wscale, offset, dup, acoustic)
     ACOUSTIC_INPUT = ACOUSTIC_VARIANTS[acoustic]
     vdata = []
     for i, v in enumerate(vols):
@@ -357,6 +441,20 @@ def selftest() -> bool:
         ok = ok and weights_for("zero-first", nq)[0] == 0 and weights_for("zero-last", nq)[-1] == 0
         ok = ok and all(isinstance(x, int) for x in weights_for("integer", nq))
     ok = ok and len(build_input(6, 2, 6, "power", weights="empty")[0].weights) == 0
+    # 4d. duplicated columns really are consecutive and identical; grid presentations carry the same values
+    for (nq, npm), dk, want in (((2, 6), "within", 4), ((3, 3), "within", 2), ((2, 6), "across", 1), ((3, 3), "across", 1),
+                                ((2, 6), "after-acoustic", 1), ((2, 3), "after-acoustic", 1), ((1, 6), "within", 1),
+                                ((2, 6), "none", 0)):
+        if consecutive_identical(build_input(8, nq, npm, "morse", dup=dk)[0]) != want:
+            ok = False
+    for pres in GRID_PRESENTATIONS:
+        u = INT_GRID_UNIT if pres.startswith("int") else 1.0
+        g, twin = present_grid(pres, "extended", volumes(8, u))
+        ok = ok and twin.dtype == numpy.float64 and twin.flags.c_contiguous and twin.flags.writeable
+        ok = ok and len(g) == len(twin) and bool(numpy.all(g.astype(numpy.float64) == twin)) and bool(numpy.all(numpy.diff(twin) > 0))
+        ok = ok and (len(g) >= N_GRID or pres == "float32")
+        ok = ok and {"int64": g.dtype == numpy.int64, "int32": g.dtype == numpy.int32, "float32": g.dtype == numpy.float32,
+                     "strided": not g.flags.c_contiguous, "readonly": not g.flags.writeable, "float64": True}[pres]
     # 5. grids
     for nv in (6, 8, 12):
         vs = volumes(nv)
